@@ -25,6 +25,7 @@ type faultCfg struct {
 	FaultSteps  int
 	Stall       float64
 	Neighbour   bool // other hands are started in the same process while this one runs
+	Query       bool // read-only questions are put to the live game object between operations
 	Staller     bool // every honest client prefers the action that moves no chips (bet 0, check, pass)
 }
 
@@ -50,6 +51,7 @@ func drawFaults(r *sim.RNG, n int) *faultCfg {
 	f.Stall = pick(0.3, 0.02, 0.05)
 	f.AcceptStale = r.Chance(0.5)
 	f.Neighbour = r.Chance(0.3)
+	f.Query = r.Chance(0.3)
 	if r.Chance(0.6) {
 		k := 1 + r.Intn(2)
 		for j := 0; j < k; j++ {
@@ -452,6 +454,17 @@ func (h *hand) heartbeat() {
 			return
 		}
 	}
+	if h.faultsOn && h.fc.Query && !h.closed() && h.rng.Chance(0.5) {
+		st := sim.Step{T: h.loop.Now, Actor: "server", Op: "query", Mode: "warm", Fault: "read-only-query",
+			Args: []int64{int64(h.rng.Intn(h.n())), 1 + h.rng.Int63n(63)}}
+		idx := len(h.r.steps)
+		h.r.steps = append(h.r.steps, st)
+		d := h.r.srv.deliver(&h.r.steps[idx], idx)
+		h.r.observe(d)
+		if h.r.dead {
+			return
+		}
+	}
 	if h.faultsOn && h.fc.Stall > 0 {
 		for _, c := range h.cl {
 			if c.stalled {
@@ -645,6 +658,7 @@ func (World) Components() map[string]string {
 }
 
 func (w World) Generate(subseed uint64, o sim.Options) *sim.Result {
+	shuffleStream(subseed)
 	rng := sim.NewRNG(subseed)
 	cfg := DrawCfg(rng)
 	r := newRun(cfg, o, false)
@@ -686,6 +700,7 @@ func (w World) Generate(subseed uint64, o sim.Options) *sim.Result {
 }
 
 func (w World) Replay(c *sim.Case, o sim.Options) *sim.Result {
+	shuffleStream(c.SubSeed)
 	var cfg Cfg
 	res := &sim.Result{}
 	if err := json.Unmarshal(c.Config, &cfg); err != nil {
